@@ -709,6 +709,12 @@ func checkC07(c *core.Ctx) error {
 			chk := NewChecker()
 			for j := range jch {
 				wit := j.r.rc.String() + " (not reproduced at the probe offsets)"
+				if hdr := map[string]bool{"empty": true, "inPackageClause": true, "inImports": true}; strings.Contains(j.why, "fails although") && j.r.rc.Disk == "trunc" && hdr[j.r.rc.Class] && strings.Contains(j.r.note, "no initial packages were loaded") {
+					// a remnant cut inside its header makes the loader reject the package whatever the sources are:
+					// the truncation class IS the failing input; the call sites play no role
+					dch <- done{j.why, "any sources, disk=trunc(" + j.r.rc.Class + "): no initial packages were loaded", j.r}
+					continue
+				}
 				for _, sub := range subCases(j.r.rc) {
 					f, err := failsWith(chk, sub, j.why)
 					if err != nil {
